@@ -1,7 +1,7 @@
 # C14 - output reaches the client in order, exactly once, under any write pattern.
 # Engine W-loop: real add_message()/flush_message()/process_io() against scripted send() results.
 import re, hashlib
-from ..core import Plan, Violation, generic_crash_violations, enc, dec
+from ..core import Plan, Violation, generic_crash_violations, spin_violations, enc, dec
 from ..world import *
 
 PROP = 'C14'
@@ -164,6 +164,7 @@ def _matches(stream, msgs, limit=40):
 def check(plan, res):
     v = generic_crash_violations(PROP, res)
     if v: return v
+    v += spin_violations(PROP, res)
     telnet = any(h.startswith('cfg Port') and 'telnet' in dec(h.split(' ')[2]).decode() for h in plan.header)
     # expected output per conn, in the order the driver was asked to produce it:
     #   [bytes, label, event idx when the write started, event idx when it was complete (None: evaluation aborted)]
